@@ -21,6 +21,10 @@ Follows `/repo/pkg/resource/{value,collection,backpressure}.go`, `/repo/internal
 * the forwarder filters every event (and the seed) through the subscriber's read mask: the observed view is
   the projection of the raw view.
 
+* the forwarder goroutine of `Collection.Pull` (`fwdEv`, `seedView`, `Sub.obs`, `Sub.obsView`): seeds are the
+  included stored items through the mask; every change goes through `include` (judging the STORED old / new values)
+  and THEN the read mask; `Sub.pullID`: `PullID` as the stream of one id up to its first REMOVE.
+
 Publications in flight are kept in commit order in `pubs`.  Ghost: `seq`, `subAt`, `got`.
 -/
 namespace ScVerif.C03
